@@ -1263,6 +1263,10 @@ pub fn plan_c13(thorough: bool) -> Plan {
     // the page pool hands out buffers full of 0xA5 (reads as leaf nodes) / 0x5A (internal nodes)
     menu.push(json!({"pool_poison": 0xA5}));
     menu.push(json!({"pool_poison": 0x5A}));
+    // hashers: Sha2, Blake3 with flipped kind labels, Blake3 with the kind in the last bit
+    for h in [1, 2, 3] {
+        menu.push(json!({"hasher": h}));
+    }
     menu.push(json!({"page_cache": 0}));
     menu.push(json!({"page_cache": 1}));
     menu.push(json!({"leaf_cache": 0}));
@@ -1303,6 +1307,42 @@ pub fn plan_c13(thorough: bool) -> Plan {
         // volume: batches of hundreds of keys (reads, writes, deletes) over 1500 random keys, every
         // key audited
         ("bulk", vec!["seed:all"], vec![json!({"cw": [[0, "wn", 700]]}), json!({"cw": [[100, "rn", 300], [800, "dn", 100], [1000, "wn", 200]]}), json!({"reopen": {}}), json!({"cw": [[0, "dn", 400]]})]),
+        // sessions on chains of uncommitted overlays that changed the root page (under warm-up the
+        // warm-up worker, under several workers a worker without keys, must find the ancestors'
+        // root page, not the committed one), the last one witnessed; committed in order
+        ("empty", vec!["U2"], vec![
+            json!({"c": [w(0, 1), w(3, 1)]}),
+            json!({"ov": {"id": 0, "on": [], "b": [w(7, 1), w(13, 1)]}}),
+            json!({"ov": {"id": 1, "on": [0], "b": [w(5, 2), del(0)]}}),
+            json!({"ov": {"id": 2, "on": [1, 0], "b": [w(1, 1), del(7)], "w": true}}),
+            json!({"ovc": 0}), json!({"ovc": 1}), json!({"ovc": 2}),
+            json!({"reopen": {}}),
+            json!({"cw": [w(2, 1), del(13)]}),
+        ]),
+        ("empty", vec!["WRK"], vec![
+            json!({"c": [w(0, 1), w(9, 1)]}),
+            json!({"ov": {"id": 0, "on": [], "b": [w(3, 1), w(5, 1)]}}),
+            json!({"ov": {"id": 1, "on": [0], "b": [w(1, 1)], "w": true}}),
+            json!({"ov": {"id": 2, "on": [1, 0], "b": [w(8, 1), del(3)], "w": true}}),
+            json!({"ovc": 0}), json!({"ovc": 1}), json!({"ovc": 2}),
+            json!({"reopen": {}}),
+            json!({"cw": [del(5), w(4, 2)]}),
+        ]),
+        // coexisting sessions: a session is held open while two others are begun and finished
+        // (into overlays) on the same thread, then released; the overlays are committed in order
+        // ("Multiple sessions may coexist": no option may turn that into waiting for each other)
+        ("empty", vec!["U4"], vec![
+            json!({"c": [w(0, 5), w(1, 5)]}),
+            json!({"hold": 0}),
+            json!({"ov": {"id": 0, "on": [], "b": [w(2, 1)]}}),
+            json!({"hold": 1}),
+            json!({"ov": {"id": 1, "on": [0], "b": [w(3, 1), del(0)], "w": true}}),
+            json!({"release": 0}),
+            json!({"release": 1}),
+            json!({"ovc": 0}), json!({"ovc": 1}),
+            json!({"reopen": {}}),
+            json!({"cw": [w(0, 2)]}),
+        ]),
         // a two-leaf trie whose terminals span several workers' key ranges; batches around the
         // range boundaries of 3, 5, 6 and 7 workers
         ("empty", vec!["WRK"], vec![json!({"c": [w(0, 1), w(9, 1)]}), json!({"cw": [w(3, 1), w(5, 1), w(6, 1), w(7, 1)]}), json!({"reopen": {}}), json!({"cw": [del(3), w(1, 1), w(4, 2), del(7)]}), json!({"cw": [w(2, 1), del(5), del(6), w(8, 1)]})]),
@@ -1527,6 +1567,31 @@ pub fn exact_fit_leaf_family(audit: &str) -> Vec<Value> {
                 short[n_exact - 1] = w((n_exact - 1) as u64, 5);
                 out.push(case("empty", uni.clone(), &cfg, audit, vec![c(short), c(vec![items[n_exact - 1].clone()]), c(vec![w(1, 9)])], 2, true));
             }
+        }
+    }
+    out
+}
+
+/// Overflow-value size boundaries (C01, C16, C19): one key written with size s1, overwritten with
+/// s2, deleted, for every ordered pair of sizes around every boundary of the overflow format —
+/// inline / overflow (1332 | 1333), one / two / three pages (4092 | 4093, 4096 | 4097, 8184 | 8185),
+/// all page numbers in the cell / one in a page (15 pages = 61380 | 61381), and the first size that
+/// needs an extra page because of the page numbers stored in pages (16 pages hold 65468 | 65469;
+/// 65472 | 65473) — with a reopen at the end; a neighbour key with a small value shares the leaf.
+pub fn overflow_boundary_family(audit: &str, thorough: bool) -> Vec<Value> {
+    let mut out = vec![];
+    let mut cfg = Cfg::default();
+    cfg.buckets = 64;
+    let sizes: Vec<u64> = vec![1332, 1333, 4091, 4092, 4093, 4096, 4097, 8184, 8185, 61380, 61381, 65468, 65469, 65472, 65473];
+    for (i, s1) in sizes.iter().enumerate() {
+        for (j, s2) in sizes.iter().enumerate() {
+            // quick tier: every size first and second, not every pair (a band around the diagonal
+            // plus the first row and column)
+            if !thorough && !(i == 0 || j == 0 || (i as i64 - j as i64).abs() <= 1) {
+                continue;
+            }
+            let ops = vec![c(vec![w(0, *s1), w(1, 5)]), c(vec![w(0, *s2)]), c(vec![del(0)])];
+            out.push(case("empty", vec!["U4"], &cfg, audit, ops, 2, true));
         }
     }
     out
